@@ -1070,9 +1070,11 @@ wrapped_interval<Number>::UDiv(const wrapped_interval<Number> &x) const {
   if (is_top() || x.is_top()) {
     return wrapped_interval<Number>::top();
   } else {
+    // Unsigned division is monotone on intervals that do not wrap
+    // around as unsigned numbers (i.e., do not cross 1...1 -> 0...0).
     std::vector<wrapped_interval<Number>> ssplits, x_ssplits;
-    signed_split(ssplits);
-    x.signed_split(x_ssplits);
+    unsigned_split(ssplits);
+    x.unsigned_split(x_ssplits);
     assert(!ssplits.empty());
     assert(!x_ssplits.empty());
     wrapped_interval<Number> res = wrapped_interval<Number>::bottom();
